@@ -1,5 +1,7 @@
 import FlowRecord.Model.Selector.PyOps
 import FlowRecordProofs.Lemmas.SelectorPyOps
+import FlowRecordProofs.Lemmas.SelectorStep
+import FlowRecord.Model.Selector.Concrete
 /-!
 C08 — comparisons on a field the record lacks are false and never raise.
 
@@ -110,7 +112,7 @@ theorem C08_table_counterexample : ¬ C08_table_statement := by
 theorem C08_compiled_in_left_raises (T : ClassTable) (v : PVal)
     (hshape : ∀ xs, v ≠ .list xs ∧ v ≠ .tuple xs) (hm : v.isMissing = false)
     (hc : (∃ f, T.contains v = some f ∧ f .missing = .error .typeErr) ∨ (T.contains v = none ∧ T.iter v = none)) :
-    cell T .compiled .isin .left v = .error .typeErr ∧ cell T .compiled .notin .left v = .error .typeErr := by
+    (∃ e, cell T .compiled .isin .left v = .error e) ∧ (∃ e, cell T .compiled .notin .left v = .error e) := by
   cases v <;> simp_all [cell, compiledCompare, pyIn, pyNotIn, PVal.isMissing] <;>
     (rcases hc with ⟨f, hf, hfm⟩ | ⟨h1, h2⟩ <;> simp_all [Except.map])
 
@@ -131,6 +133,120 @@ theorem C08_binop_guard (v : PVal) :
   intro h w hw
   simp [binopGuard, h, hw]
 
+/-! ### inside the interpreter: boolean contexts, streams, helpers -/
+
+/-- `r.<f> <op> <c>` and `<c> <op> r.<f>` as expressions -/
+def C08_cmpLeft (f : String) (op : SelOp) (c : Expr) : Expr := .compare (.attr (.name "r") f) [(op.astName, c)]
+def C08_cmpRight (f : String) (op : SelOp) (c : Expr) : Expr := .compare c [(op.astName, .attr (.name "r") f)]
+
+/-- Interpreted engine, missing field on the left, **any** other operand expression `c` that evaluates at all
+    (to any value `v`): the comparison evaluates to False without error — through the full interpreter model
+    (Name `r`, Attribute with the sentinel default, Compare with the generated operator table), for every
+    primitive semantics whose rich comparison is Python's dispatch over some class table. -/
+theorem C08_context_left (P : Prim) (T : ClassTable) (hP : ∀ o a b, P.rich o a b = richcmp T o a b)
+    (fuel : Nat) (f : String) (op : SelOp) (c : Expr) (st s2 : St) (v : PVal)
+    (hr : st.ns.lookup "r" = none) (hf : P.getattr st.record f = none) (hd : hasPrefix "__" f = false)
+    (hc : interp P (fuel + 2) c { st with trace := st.trace ++ [.getattr st.record f] } = (s2, .ok v)) :
+    interp P (fuel + 3) (C08_cmpLeft f op c) st = (s2, .ok (.bool false)) := by
+  have h1 := interp_attr P (fuel + 1) (.name "r") f st st st.record hd (interp_name_r P fuel st hr)
+  rw [hf] at h1
+  rw [C08_cmpLeft, interp_compare1 P (fuel + 2) _ c _ st _ s2 .missing v h1 hc]
+  exact link_missing_left P T hP op v s2
+
+/-- Missing field on the right, for an operand that leaves the comparison to the sentinel. -/
+theorem C08_context_right (P : Prim) (T : ClassTable) (hP : ∀ o a b, P.rich o a b = richcmp T o a b)
+    (fuel : Nat) (f : String) (op : SelOp) (c : Expr) (st s1 : St) (v : PVal) (hv : Foreign T v)
+    (ht : v.isTmatch = false) (hr : s1.ns.lookup "r" = none) (hf : P.getattr s1.record f = none)
+    (hd : hasPrefix "__" f = false) (hc : interp P (fuel + 2) c st = (s1, .ok v)) :
+    interp P (fuel + 3) (C08_cmpRight f op c) st
+      = ({ s1 with trace := s1.trace ++ [.getattr s1.record f] }, .ok (.bool false)) := by
+  have h1 := interp_attr P (fuel + 1) (.name "r") f s1 s1 s1.record hd (interp_name_r P fuel s1 hr)
+  rw [hf] at h1
+  rw [C08_cmpRight, interp_compare1 P (fuel + 2) c _ _ st s1 _ v .missing hc h1]
+  exact link_missing_right P T hP op v hv ht _
+
+/-- Under `not`, `and`, `or`: the comparison contributes False and nothing raises — `not C` is True, `C and y` is
+    False without evaluating `y`, `C or y` is whatever `y` is. (`C` = any expression that evaluates to False, in
+    particular the two comparisons above.) -/
+theorem C08_boolean_contexts (P : Prim) (hfalse : P.truthy (.bool false) = false) (fuel : Nat) (C y : Expr)
+    (st s1 : St) (hC : interp P fuel C st = (s1, .ok (.bool false))) :
+    interp P (fuel + 1) (.unary "Not" C) st = (s1, .ok (.bool true)) ∧
+    interp P (fuel + 1) (.boolop "And" [C, y]) st = (s1, .ok (.bool false)) ∧
+    (∀ s2 w, interp P fuel y s1 = (s2, .ok w) → interp P (fuel + 1) (.boolop "Or" [C, y]) st = (s2, .ok w)) := by
+  refine ⟨?_, interp_and_false P fuel C y st s1 _ hC hfalse, fun s2 w hy => interp_or_false P fuel C y st s1 s2 _ w hC hfalse hy⟩
+  have := interp_not P fuel C st s1 _ hC
+  simpa [hfalse] using this
+
+/-- The interpreted engine's arithmetic guard, through the interpreter: `r.<f> <binop> c` with a missing field is
+    False for **every** operator name (the guard precedes the table lookup). -/
+theorem C08_binop_context (P : Prim) (fuel : Nat) (f opname : String) (c : Expr) (st s2 : St) (v : PVal)
+    (hr : st.ns.lookup "r" = none) (hf : P.getattr st.record f = none) (hd : hasPrefix "__" f = false)
+    (hc : interp P (fuel + 2) c { st with trace := st.trace ++ [.getattr st.record f] } = (s2, .ok v)) :
+    interp P (fuel + 3) (.binop opname (.attr (.name "r") f) c) st = (s2, .ok (.bool false)) := by
+  have h1 := interp_attr P (fuel + 1) (.name "r") f st st st.record hd (interp_name_r P fuel st hr)
+  rw [hf] at h1
+  have hk : Gen.evalNodeKinds.contains "BinOp" = true := by decide
+  show evalStep P (interp P (fuel + 2)) _ st = _
+  unfold evalStep
+  simp only [Expr.kind, hk, Bool.not_true, Bool.false_eq_true, if_false, bind_eq, pure_eq]
+  unfold M.bind
+  simp only [h1, Option.getD_none, hc]
+  simp [binopGuard, PVal.isMissing, M.pure]
+
+/-- The reader loop (`if not selector or selector.match(obj): yield obj`; an exception ends the source). -/
+def C08_readSel (m : PVal → Except Err Bool) : List PVal → List PVal × Option Err
+  | [] => ([], none)
+  | r :: rs =>
+    match m r with
+    | .error e => ([], some e)
+    | .ok true => ((r :: (C08_readSel m rs).1), (C08_readSel m rs).2)
+    | .ok false => C08_readSel m rs
+
+/-- Filtering a heterogeneous stream: if the match on every record that **lacks** the field is False (which
+    `C08_context_left/right` prove for the interpreted engine) and the match on every record that has it is the
+    condition's value, the output is exactly the records that have the field and satisfy the condition, in order,
+    and the source is never aborted — nothing after a record lacking the field is dropped. -/
+theorem C08_filter (m : PVal → Except Err Bool) (has cond : PVal → Bool) (rs : List PVal)
+    (hlacks : ∀ r ∈ rs, has r = false → m r = .ok false)
+    (hhas : ∀ r ∈ rs, has r = true → m r = .ok (cond r)) :
+    C08_readSel m rs = (rs.filter (fun r => has r && cond r), none) := by
+  induction rs with
+  | nil => rfl
+  | cons r rs ih =>
+    have ih' := ih (fun x hx => hlacks x (by simp [hx])) (fun x hx => hhas x (by simp [hx]))
+    unfold C08_readSel
+    cases hh : has r with
+    | false =>
+      rw [hlacks r (by simp) hh]
+      simp [hh, ih']
+    | true =>
+      rw [hhas r (by simp) hh]
+      cases hc : cond r <;> simp [hh, hc, ih']
+
+/-- and conversely: one raising match loses the rest of the source (why a raising cell matters: finding #5 was
+    masked in rdump exactly this way) -/
+theorem C08_filter_abort (m : PVal → Except Err Bool) (r : PVal) (rs : List PVal) (e : Err) (h : m r = .error e) :
+    C08_readSel m (r :: rs) = ([], some e) := by
+  simp [C08_readSel, h]
+
+/-- Helpers skip missing fields: the loop shared by `field_equals` / `field_contains` gives the same result as over
+    the fields the record actually has. -/
+theorem C08_helpers (T : ClassTable) (r : PVal) (test : PVal → PVal → Except Err Bool) (nocase : Bool)
+    (strings : List PVal) (fields : List PVal) :
+    fieldLoop T r test nocase strings fields =
+      fieldLoop T r test nocase strings
+        (fields.filter (fun f => match f with | .str n => (recGet r n).isSome | _ => true)) := by
+  induction fields with
+  | nil => rfl
+  | cons f fs ih =>
+    cases f <;> try (simp [fieldLoop])
+    rename_i n
+    cases hg : recGet r n with
+    | none => simp [fieldLoop, hg, ih]
+    | some fv =>
+      simp only [List.filter_cons, hg, Option.isSome_some, if_true, fieldLoop]
+      rw [ih]
+
 -- Non-vacuity: `Foreign` is satisfiable by ordinary values, and the cells compute.
 namespace C08_nonvacuous
 example : Foreign C08_T0 (.int 1) := fun _ => rfl
@@ -138,6 +254,7 @@ example : Foreign C08_T0 (.list [.str "a"]) := fun _ => rfl
 example : cell C08_T0 .compiled (.cmp .le) .right (.int 1) = .ok (.bool false) := rfl
 example : cell C08_T0 .interpreted .notin .left (.list [.int 1]) = .ok (.bool false) := rfl
 example : cell C08_T0 .compiled .isin .left (.int 5) = .error .typeErr := rfl
+example : cell C08_T0 .compiled .isin .left .none = .error .typeErrNone := rfl
 /-- a class table in which `Foreign` fails (the class answers `!=`), so the hypothesis is not vacuous either way -/
 def T1 : ClassTable := { C08_T0 with cmp := fun _ op _ => if op = .ne then .val (.bool true) else .notImpl }
 example : ¬ Foreign T1 (.int 1) := fun h => by have := h .ne; simp [slot, T1] at this
